@@ -381,12 +381,138 @@ async fn run_ref_scenario(sc: &Value, rng: &mut Rng, ref_is_server: bool) -> Val
            "originals": originals, "events": events, "tick_ms": tick, "deadline_ms": deadline})
 }
 
+// ------------------------------------------------------------------------------------------------
+// PeerConnection level (C02): the expected fingerprint is whatever set_remote_description extracts from the
+// a=fingerprint attributes of the answer; the offerer is the DTLS client and checks it against the certificate
+// the answerer presents. One case = placement/presentation of the attribute at session and media level.
+
+fn present(form: &str, genuine: &str, wrong: &str) -> Option<String> {
+    let near = {
+        let mut f = genuine.to_string();
+        let last = f.pop().unwrap();
+        f.push(if last == '0' { '1' } else { '0' });
+        f
+    };
+    Some(match form {
+        "none" => return None,
+        "G" => format!("sha-256 {genuine}"),
+        "Glower" => format!("sha-256 {}", genuine.to_ascii_lowercase()),
+        "Gnocolon" => format!("sha-256 {}", genuine.replace(':', "")),
+        "GalgUpper" => format!("SHA-256 {genuine}"),
+        "Gsha1" => format!("sha-1 {genuine}"),
+        "W" => format!("sha-256 {wrong}"),
+        "Near" => format!("sha-256 {near}"),
+        "Gtrunc" => format!("sha-256 {}", &genuine[..genuine.len() - 3]),
+        x => panic!("bad form {x}"),
+    })
+}
+
+async fn run_pc_case(case: &Value) -> Value {
+    use rtcverif::pcpair::{Pair, PairCfg, wait_until};
+    let id = case["id"].as_str().unwrap_or("?").to_string();
+    rustrtc::verif::set_override("dtls_retransmit_ms", Some(40));
+    rustrtc::verif::set_override("dtls_deadline_ms", Some(900));
+    let _ = rustrtc::verif::take_events();
+    rustrtc::verif::set_enabled(true);
+    let cfg = PairCfg::default(); // WebRtc, data channel, offerer A (= DTLS client)
+    let pair = Pair::new(&cfg);
+    let mut obs = json!({});
+    let res: Result<(), String> = async {
+        pair.create_dc()?;
+        let offer = pair.step_offer().await?;
+        pair.step_set_local_offer(&offer)?;
+        pair.step_set_remote_offer(&offer).await?;
+        let answer = pair.step_answer().await?;
+        pair.step_set_local_answer(&answer)?;
+        // rewrite the fingerprint attributes of the answer as the case says
+        let text = answer.to_sdp_string();
+        let genuine = text
+            .lines()
+            .find_map(|l| l.strip_prefix("a=fingerprint:sha-256 ").map(|v| v.trim().to_string()))
+            .ok_or("answer without fingerprint")?;
+        let wrong = dtls::fingerprint(&dtls::generate_certificate().map_err(|e| e.to_string())?);
+        let sess = present(case["session"].as_str().unwrap_or("none"), &genuine, &wrong);
+        let media = present(case["media"].as_str().unwrap_or("none"), &genuine, &wrong);
+        let mut out = String::new();
+        let mut in_media = false;
+        let mut placed_session = false;
+        for line in text.lines() {
+            if line.starts_with("a=fingerprint:") {
+                continue;
+            }
+            if line.starts_with("m=") {
+                if !placed_session {
+                    if let Some(s) = &sess {
+                        out.push_str(&format!("a=fingerprint:{s}\r\n"));
+                    }
+                    placed_session = true;
+                }
+                in_media = true;
+                out.push_str(line);
+                out.push_str("\r\n");
+                if let Some(m) = &media {
+                    out.push_str(&format!("a=fingerprint:{m}\r\n"));
+                }
+                continue;
+            }
+            let _ = in_media;
+            out.push_str(line);
+            out.push_str("\r\n");
+        }
+        obs["sdp_fingerprint_lines"] = json!(out.lines().filter(|l| l.starts_with("a=fingerprint")).collect::<Vec<_>>());
+        let parsed = rustrtc::sdp::SessionDescription::parse(rustrtc::sdp::SdpType::Answer, &out);
+        let desc = match parsed {
+            Ok(d) => d,
+            Err(e) => {
+                obs["set_remote"] = json!(format!("parse error: {e}"));
+                return Ok(());
+            }
+        };
+        match pair.step_set_remote_answer(&desc).await {
+            Ok(()) => obs["set_remote"] = json!("ok"),
+            Err(e) => {
+                obs["set_remote"] = json!(e);
+                return Ok(());
+            }
+        }
+        Ok(())
+    }
+    .await;
+    if let Err(e) = res {
+        obs["error"] = json!(e);
+    }
+    // connected = offerer's transport reached Connected and the data channel opened on both sides
+    let refused = obs["set_remote"] != json!("ok");
+    let _ = wait_until(Duration::from_millis(if refused { 150 } else { 4000 }), || {
+        (pair.both_connected() && pair.both_dc_open())
+            || matches!(pair.side("A").peer_state(), Some(rustrtc::PeerConnectionState::Failed) | Some(rustrtc::PeerConnectionState::Closed))
+    })
+    .await;
+    let connected = pair.both_connected() && pair.both_dc_open();
+    obs["connected"] = json!(connected);
+    obs["state_A"] = json!(format!("{:?}", pair.side("A").peer_state()));
+    obs["state_B"] = json!(format!("{:?}", pair.side("B").peer_state()));
+    pair.side("A").close();
+    pair.side("B").close();
+    tokio::time::sleep(Duration::from_millis(30)).await;
+    rustrtc::verif::set_enabled(false);
+    let events = rustrtc::verif::take_events();
+    let dtls_connected: Vec<String> = events.iter().filter(|e| e["comp"] == "dtls" && e["ev"] == "connected")
+        .map(|e| e["inst"].as_str().unwrap_or("").to_string()).collect();
+    let dtls_failed: Vec<String> = events.iter().filter(|e| e["comp"] == "dtls" && e["ev"] == "failed")
+        .map(|e| format!("{}: {}", e["inst"].as_str().unwrap_or(""), e["reason"].as_str().unwrap_or(""))).collect();
+    obs["dtls_connected"] = json!(dtls_connected);
+    obs["dtls_failed"] = json!(dtls_failed);
+    json!({"type": "outcome", "id": id, "case": case, "obs": obs})
+}
+
 fn main() {
     let args: Vec<String> = std::env::args().collect();
-    if args.len() < 4 || args[1] != "run" {
-        eprintln!("usage: dtlshs run <scenarios.ndjson> <out.ndjson> [i/n]");
+    if args.len() < 4 || (args[1] != "run" && args[1] != "pc") {
+        eprintln!("usage: dtlshs run|pc <scenarios.ndjson> <out.ndjson> [i/n]");
         std::process::exit(2);
     }
+    let pc_mode = args[1] == "pc";
     let (mut shard, mut nshards) = (0usize, 1usize);
     if let Some(s) = args.get(4) {
         let mut it = s.split('/');
@@ -408,6 +534,9 @@ fn main() {
             let h = tokio::spawn({
                 let sc = sc.clone();
                 async move {
+                    if pc_mode {
+                        return run_pc_case(&sc).await;
+                    }
                     match sc["peer"].as_str() {
                         Some("refS") => run_ref_scenario(&sc, &mut r, true).await,
                         Some("refC") => run_ref_scenario(&sc, &mut r, false).await,
